@@ -32,7 +32,7 @@ RULE = ('cases are histories of 4-12 steps over 1-2 private keys with subkeys (P
 TIERS = {"quick": {"runs": 5000, "budget_s": 100}, "thorough": {"runs": 150000, "budget_s": 1500}}
 PROBES = ('x1_fired', 'x1_fired_in_unlock_entry', 'x1_not_reached', 'exit_by_body_exception', 'wrong_passphrase', 'at_rest_flip',
           'at_rest_flip_subkey', 'reprotect_inside_scope', 'add_subkey_inside_scope', 'nested_unlock', 'nested_wrong_passphrase', 'foreign_usage255',
-          'foreign_s2k_simple', 'foreign_s2k_salted', 'foreign_gnu_dummy', 'foreign_mixed', 'export_import_protected', 'copy_key', 'ghost_of_copied_key_checked', 'uidless_protected_key',
+          'foreign_s2k_simple', 'foreign_s2k_salted', 'foreign_gnu_dummy', 'foreign_mixed', 'foreign_two_passphrases', 'export_import_protected', 'copy_key', 'ghost_of_copied_key_checked', 'uidless_protected_key',
           'second_unlock_ok', 'graph_objects_walked', 'different_subkey_passphrase', 'passphrase_bytes', 'rsa', 'dsa', 'ecdsa', 'eddsa')
 
 PASSES = ['hunter2', 'pässwörd ☃', 'x' * 120, 'p w', 'QwertyUiop', 'cafe\u0301 \u1112\u1161\u11ab', ' padded with blanks ', 'tab\tinside\n']
@@ -52,7 +52,7 @@ def generate(rng, tier):
             keys['k%d' % i] = {'foreign': True, 'alg': rng.choice(['ed25519', 'ed25519', 'p256', 'p384', 'rsa2048', 'dsa2048']),
                                'usage_octet': rng.choice([254, 254, 255]), 's2k': rng.choice([3, 3, 1, 0]),
                                'cipher': rng.choice([7, 9, 3, 2, 8, 4, 11, 12, 13]), 'hash': rng.choice([8, 2, 10]), 'count': rng.choice([0, 16, 96]),
-                               'shape': rng.choice(['plain', 'plain', 'gnu_dummy', 'mixed']), 'pass': rng.choice(PASSES)}
+                               'shape': rng.choice(['plain', 'plain', 'gnu_dummy', 'mixed', 'two_pass']), 'pass': rng.choice(PASSES)}
         else:
             alg = rng.choice(['ed25519', 'ed25519', 'p256', 'p384', 'p521', 'secp256k1']) if rng.random() > 0.15 else \
                 rng.choice(['rsa2048', 'dsa2048', 'rsa1024'])
@@ -372,7 +372,12 @@ def _build_foreign(pgpy, name, spec, case, ctx):
     hashed = (rsigs.sp_created(created) + rsigs.sp_keyflags(0x03) + rsigs.encode_subpacket(rsigs.SP_PREF_HASH, bytes([8, 10]))
               + rsigs.encode_subpacket(rsigs.SP_PREF_SYM, bytes([9, 7])) + rsigs.sp_issuer_fpr(pub.fingerprint))
     out += encode_packet(2, rsigs.sign(0x13, pub, secret, 8, hashed, rsigs.sp_issuer(pub.keyid), rsigs.subject_uid(pub, uid)))
-    out += encode_packet(7, rkeys.build_sec_body(sb, salg, ssec, None if shape == 'mixed' else prot('s')))
+    sprot = None if shape == 'mixed' else prot('s')
+    if shape == 'two_pass':
+        # legal and met in the wild: the subkey sits under another passphrase than the primary (merged from two sources)
+        sprot['passphrase'] = spec['pass'] + ' (the other one)'
+        ctx.probe('foreign_two_passphrases')
+    out += encode_packet(7, rkeys.build_sec_body(sb, salg, ssec, sprot))
     secrets.append((spub.fingerprint, salg, ssec))
     h = rsigs.sp_created(created) + rsigs.sp_keyflags(0x0C) + rsigs.sp_issuer_fpr(pub.fingerprint)
     out += encode_packet(2, rsigs.sign(0x18, pub, secret, 8, h, rsigs.sp_issuer(pub.keyid), rsigs.subject_subkey(pub, spub)))
@@ -396,6 +401,10 @@ def _build_foreign(pgpy, name, spec, case, ctx):
     ks.mixed = shape == 'mixed'
     if ks.mixed:
         ks.unprotected.add(spub.fingerprint)
+    if shape == 'two_pass':
+        # no single passphrase opens this key: every scope fails part-way (the primary opens, the subkey does not) and must leave
+        # the whole key locked and wiped
+        ks.broken = True
     return ks
 
 
